@@ -1143,6 +1143,10 @@ public:
 		if (!d) {
 			return _d.insert(_d.length(), entry(key, value));
 		}
+		/* entries may be shared with a copy of the map */
+		if (!_d.detach() || !(d = get(key))) {
+			return false;
+		}
 		*d = value;
 		return true;
 	}
